@@ -3,3 +3,4 @@ import Iodata.Model.Fmt.Xyz
 import Iodata.Model.Fmt.Sdf
 import Iodata.Model.Fmt.Pdb
 import Iodata.Model.Fmt.Fchk
+import Iodata.Model.Fmt.Cube
